@@ -303,10 +303,24 @@ pub fn catalogue(valid: &[&str]) -> Vec<Vec<u8>> {
         }
         out.push(format!(" \n{}", v).into_bytes());
         out.push(format!("\u{feff}{}", v).into_bytes());
+        // the same object with a member the type may not declare
+        if let Some(x) = with_extra_member(v) {
+            out.push(serde_json::to_vec(&x).unwrap());
+        }
     }
     out.sort();
     out.dedup();
     out
+}
+
+fn with_extra_member(v: &str) -> Option<serde_json::Value> {
+    match serde_json::from_str::<serde_json::Value>(v) {
+        Ok(serde_json::Value::Object(mut m)) => {
+            m.insert("zzUndeclared".into(), serde_json::Value::Bool(true));
+            Some(serde_json::Value::Object(m))
+        }
+        _ => None,
+    }
 }
 
 const JSON_SYMBOLS: [&str; 12] = ["1", "-", "\"", "a", "[", "]", "{", "}", ",", ":", " ", "null"];
@@ -395,6 +409,9 @@ where
             let mut x = smile.clone();
             x.extend_from_slice(t);
             bodies.push(x);
+        }
+        if let Some(x) = with_extra_member(v) {
+            bodies.push(serde_smile::to_vec(&x).unwrap());
         }
         let mut twice = smile.clone();
         twice.extend_from_slice(&smile[4..]);
